@@ -75,7 +75,9 @@ pub const SYN_DOCS: [Option<&str>; 8] = [
     Some("/**\n     * Block comment\n\n     * with an empty line\n     */\n"),
     Some("/**\n * Mentions export type Fake = 1; in prose\n */\n"),
     Some("/**\n * import type { X } from \"./x\"; appears in this text\n */\n"),
-    None,
+    // a block comment with an example at column 0 that looks like the declaration of a type the
+    // generator puts into the same file under that very name
+    Some("/**\nexport type Sibling = number; (an example inside a block comment)\n*/\n"),
 ];
 
 pub struct Syn<const N: usize>;
